@@ -209,6 +209,7 @@ def replay_raw(pid, path):
     alts = []
     if isinstance(cand.get('inputs'), dict):
         alts = cand['inputs'].pop('__alt__', [])
+    alts2 = cand.pop('__alts__', [])   # alternative candidates: dicts of fields overriding the candidate
     try:
         r = mod.replay(cand)
         # the solver's own model did not reproduce (uninterpreted exp/Phi): try the alternative concrete
@@ -226,6 +227,19 @@ def replay_raw(pid, path):
                 r = r2
                 r['inputs_used'] = a
                 r['witness_source'] = 'corner/shadow point tried after the solver model did not reproduce'
+        for a in alts2:
+            if r.get('violated'):
+                break
+            c2 = dict(cand)
+            c2.update(a)
+            try:
+                r2 = mod.replay(c2)
+            except Exception:  # noqa: BLE001
+                continue
+            if r2.get('violated'):
+                r = r2
+                r['cand_used'] = a
+                r['witness_source'] = 'alternative candidate tried after the solver model did not reproduce'
     except Exception as e:  # noqa: BLE001
         r = {'violated': False, 'detail': 'replay raised ' + repr(e) + ' ' + traceback.format_exc()[-800:], 'error': True}
     print(json.dumps(r))
@@ -324,6 +338,10 @@ def check_main(pid, tier, only=None, njobs=None, keep=False):
                 cand = dict(cand)
                 cand['inputs'] = dict(rr.get('inputs_used') or cand['inputs'])
                 cand['inputs'].pop('__alt__', None)
+            if rr.get('cand_used'):
+                cand = dict(cand)
+                cand.update(rr['cand_used'])
+            cand.pop('__alts__', None)
             with open(path, 'w') as f:
                 json.dump({'property': pid, 'candidate': cand, 'replay_result': rr,
                            'how': f'./check {pid} --replay {path}'}, f, indent=1, default=str)
